@@ -97,3 +97,33 @@ def extracted_wfq_run(repo):
                       len_effects=WFQ_RUN_LEN_EFFECTS)
     return tg.gen_run_module("onl/scheduler/wfq.py: WFQ.run (update_vtime / reset_vtime in place)", spec, pw.WFQ_STATE,
                              "wfq_run_st", "wr_", "wfq_run_fx", WFQ_RUN_FX_CONS, SRV_REQ_CONS, types="wfq_run")
+
+
+# ---- DRR.run (C15): coq/Gen/Extracted_drr_run.v, bridged by coq/Elem/DRRScanBridge.v, obligations Props/C15_BridgeRunDRR.v ----
+DRR_STATE = [("quantum", "mapQ"),            # read only
+             ("deficit", "mapQ"), ("class_count", "mapZ"),
+             ("head_of_line", "keysZ")]      # the KEYS of the dict of parked packets
+DRR_READS = [("self.total_packets", "total_packets", "Z"),
+             ("packet.size", "size", "Z")]                          # of the packet run() was resumed with
+DRR_ITER = [("self.quantum", "classes", ["Z"])]                     # iterating the dict = its keys in insertion order
+DRR_IDX_ALIASES = [("store = self.stores[_1]", "store", "Z")]
+DRR_IDX_READS = [("packet.size", "packet", "parked_size", "Z")]     # of the packet parked under the class it was taken from
+DRR_FX = [("packet = self.head_of_line[_1]", "FxTakeParked", ["Z"]),
+          ("del self.head_of_line[_1]", "FxUnpark", ["Z"]),
+          ("self.head_of_line[_1] = packet", "FxPark", ["Z"]),
+          ("self.current_packet = packet", "FxSetCurrent", [])]
+DRR_FX_CONS = [("FxTakeParked", "(c : Z)"), ("FxUnpark", "(c : Z)"), ("FxPark", "(c : Z)"), ("FxSetCurrent", "")]
+DRR_KEY_EFFECTS = {"FxUnpark": ("head_of_line", False), "FxPark": ("head_of_line", True)}
+# the assertion that the packet taken from the store of a class belongs to that class is not translated (put() files it there)
+DRR_IGNORE = ["assert class_id == self.flow2class(packet.flow_id)"]
+
+
+def extracted_drr_run(repo):
+    from vlib import translate_gen as tg
+    spec = tg.GenSpec(os.path.join(repo, "onl", "scheduler", "drr.py"), "DRR", "run", "gen_DRR_run", reads=DRR_READS,
+                      iterables=DRR_ITER, idx_aliases=DRR_IDX_ALIASES, idx_reads=DRR_IDX_READS, effects=DRR_FX,
+                      requests=SCHED_REQUESTS, objects=["packet", "store"], ignore_stmts=DRR_IGNORE,
+                      thread_loops=True, pass_loops=["self.total_packets > 0"], key_effects=DRR_KEY_EFFECTS,
+                      binds_idx={"FxTakeParked": "packet"}, demote=["packet"])
+    return tg.gen_run_module("onl/scheduler/drr.py: DRR.run", spec, DRR_STATE, "drr_run_st", "dr_", "drr_run_fx", DRR_FX_CONS,
+                             SCHED_REQ_CONS, types="drr_run")
